@@ -37,6 +37,10 @@ class Spec(core.PropSpec):
         ops = []
         for _ in range(ro.choice([0, 0, 1, 2, 4])):
             ops.append(["pre", ro.choice(["A", "B"]), ro.randint(0, 5)])
+        rc = st("corrupt")
+        if rc.random() < 0.2:
+            # one replica is fed an unreadable sample before the seed is injected (its loader skips such samples)
+            ops.insert(rc.randint(0, len(ops)), ["corrupt", rc.choice(["A", "B"]), rc.randint(0, 5)])
         ops.append(["inject"])
         n_calls = ro.randint(2, 6 if tier == "quick" else 14)
         for i in range(n_calls):
@@ -48,7 +52,13 @@ class Spec(core.PropSpec):
             elif r < 0.45:
                 ops.append(["migrate", ro.choice(["A", "B"])])
             ops.append(["call"])
-        if ro.random() < 0.4:
+        late_corrupt = rc.random() < 0.2
+        if late_corrupt:
+            # ... or between two injections: the failed call may have consumed random numbers, so the comparison resumes after the
+            # next injection (the seeded wrappers inject before every sample)
+            for _ in range(rc.randint(1, 3)):
+                ops.append(["corrupt", rc.choice(["A", "B"]), rc.randint(0, 5)])
+        if late_corrupt or ro.random() < 0.4:
             ops.append(["reinject"])
             for i in range(ro.randint(1, n_calls)):
                 if ro.random() < 0.3:
@@ -130,6 +140,17 @@ class Spec(core.PropSpec):
                             T[side].set_rng(np.random.default_rng(plan["seed"]))
                     injected = True
                     j = 0
+                elif op[0] == "corrupt":
+                    bad = C.make_corrupt(dom, op[2])
+                    if bad is None:
+                        continue
+                    try:
+                        with procs[op[1]].on_cpu():
+                            T[op[1]](bad, {})
+                        out.count("corrupt_input_accepted")
+                    except Exception:
+                        out.count("fault:call_on_unreadable_input_raised")
+                    extras += 1
                 elif op[0] == "clobber":
                     procs[op[1]].clobber(op[2], op[3])
                     out.count("fault:ambient_rng_clobber")
